@@ -56,24 +56,28 @@ def known(ctx, finding):
 def plan(tier, seed):
     q = tier == "quick"
     n = 16 if q else 32
-    specs = [{"kind": "exh", "i": i, "n": n, "max_obj": 3 if q else 4, "max_sp": 3, "nrand": 110 if q else 450} for i in range(n)]
+    specs = [{"kind": "exh", "i": i, "n": n, "max_obj": 3 if q else 4, "max_sp": 3, "nrand": 110 if q else 450, "nemptyroot": 50 if q else 250} for i in range(n)]
     specs.append({"kind": "fixtures"})
     return specs
 
 
-def check_scene(ctx, scene, rng):
+def check_scene(ctx, scene, rng, salt="", forced=None):
     perturb = rng.random() < 0.6
     pseed = rng.randrange(10**9)
     hi = rng.choice([100, 100, 30, 8])
+    if forced:
+        perturb, pseed, hi = forced
     case = scene.full_case()
+    if salt:
+        case["stub_salt"] = salt
     res = {}
     for orient, swap in (("VERTICAL", False), ("HORIZONTAL", True)):
         params = R.perturbed_params(random.Random(pseed) if perturb else None, orient)  # same perturbation for both orientations
-        stub = render_stub.Stub(swap=swap, lo=1, hi=hi)
+        stub = render_stub.Stub(swap=swap, lo=1, hi=hi, salt=salt)
         try:
             lay, code = R.draw(scene, params, stub)
             L = R.extract_layout(scene, lay)
-            lay2, _ = R.draw(scene, params, render_stub.Stub(swap=swap, lo=1, hi=hi))
+            lay2, _ = R.draw(scene, params, render_stub.Stub(swap=swap, lo=1, hi=hi, salt=salt))
             L2 = R.extract_layout(scene, lay2)
         except Exception as exc:  # noqa: BLE001
             ctx.viol("C14.crash", dict(case, orientation=orient), f"layout/render raised {type(exc).__name__}: {exc}")
@@ -89,11 +93,11 @@ def check_scene(ctx, scene, rng):
             ctx.viol(f"C14.{mon}", dict(case, orientation=orient, perturbed=perturb, hi=hi, pseed=pseed), msg)
         ctx.count("mon.twice")
         if R.layout_fingerprint(L) != R.layout_fingerprint(L2):
-            ctx.viol("C14.twice", dict(case, orientation=orient, perturbed=perturb, hi=hi), "computing the layout twice gives different results")
+            ctx.viol("C14.twice", dict(case, orientation=orient, perturbed=perturb, hi=hi, pseed=pseed), "computing the layout twice gives different results")
         res[orient] = L
     ctx.count("mon.symmetry")
     for mon, msg in R.judge_symmetry(scene, res["VERTICAL"], res["HORIZONTAL"]):
-        ctx.viol(f"C14.{mon}", dict(case, perturbed=perturb, hi=hi), msg)
+        ctx.viol(f"C14.{mon}", dict(case, perturbed=perturb, hi=hi, pseed=pseed), msg)
     n = dtl.event_counts(scene.G, scene.S, scene.m)
     ctx.sig((len(scene.G.leaves()), len(scene.S.leaves()), n["SPE"], n["DUP"], n["HGT"], min(n["LOSS"], 6), perturb, scene.lab is not None, hi),
             len(scene.S.leaves()) >= 2 and n["DUP"] + n["HGT"] + n["LOSS"] > 0)
@@ -117,8 +121,15 @@ def canaries(ctx):
     bad[kids[1]] = dict(bad[kids[1]], rect=bad[kids[0]]["rect"])
     ok &= any(m == "boxes" for m, _ in R.judge_geometry(scene, bad))
     bad2 = {s: dict(sl) for s, sl in LV.items()}
-    bad2[kids[1]] = dict(bad2[kids[1]], trunk=bad2[kids[0]]["rect"])
-    ok &= any(m == "trunks_overhang" for m, _ in R.judge_geometry(scene, bad2))  # overlap outside the box of kids[1]
+    inner = next(k for k in kids if scene.S.children[k])
+    other = next(k for k in kids if k != inner)
+    grand = scene.S.children[inner][0]
+    bad2[other] = dict(bad2[other], trunk=bad2[grand]["trunk"])
+    ok &= any(m == "trunks_overhang" for m, _ in R.judge_geometry(scene, bad2))  # trunk of `other` lands on a trunk deep in the neighbouring subtree, outside its own box
+    bad2c = {s: dict(sl) for s, sl in LV.items()}
+    bad2c[kids[1]] = dict(bad2c[kids[1]], trunk=bad2c[kids[0]]["rect"])
+    r2c = R.judge_geometry(scene, bad2c)
+    ok &= any(m == "trunks" for m, _ in r2c) and not any(m == "trunks_overhang" and f"species {min(kids)} and {max(kids)}" in t for m, t in r2c)  # direct siblings: never the known mechanism
     bad2b = {s: dict(sl) for s, sl in LV.items()}
     bad2b[scene.S.root] = dict(bad2b[scene.S.root], trunk=bad2b[kids[0]]["rect"])
     ok &= any(m == "trunks" for m, _ in R.judge_geometry(scene, bad2b))  # ancestor/descendant trunks: never the known mechanism
@@ -155,6 +166,32 @@ def run(ctx, spec):
             check_scene(ctx, R.Scene(c2), rng)
             if ctx.too_many():
                 return
+    # families born below the species root that reach the outgroup only through a transfer: the root species (and often
+    # other ancestors) hold no gene at all, so their trunks are as narrow as a trunk can be, next to wide ones
+    from rv.refmodel import trees as RT
+
+    for k in range(spec.get("nemptyroot", 25)):
+        ns = rng.randint(3, 5)
+        sp = rng.sample(list("ABCDEFG"), ns)
+        clade = RT.random_tree_shape(rng, sp)
+        Sn = [clade, "Zout"] if rng.random() < 0.5 else ["Zout", clade]
+        no = rng.randint(3, 6)
+        leaves, lmap = [], {}
+        for i in range(no):
+            s_ = "Zout" if i < rng.choice([1, 1, 2]) else rng.choice(sp)
+            nm = f"{s_}_{i}" + ("longlabel" * rng.randint(0, 3) if s_ == "Zout" else "")
+            leaves.append(nm)
+            lmap[nm] = s_
+        rng.shuffle(leaves)
+        case = {"kind": "render", "G": RT.random_tree_shape(rng, leaves), "S": Sn, "leafmap": lmap, "costs": dict(gen.DEFAULT), "rseed": rng.randrange(10**9)}
+        base = R.Scene(case)
+        maps = [m for m in dtl.some_recs(base.G, base.S, base.leafmap, 2000, rng) if base.S.root not in m.values()]
+        for m in (rng.sample(maps, 4) if len(maps) > 4 else maps):
+            for salt in ("", f"s{k}", f"t{k}"):
+                ctx.count("mon.empty_root_scenes")
+                check_scene(ctx, R.Scene(dict(case, mapping={str(a): b for a, b in m.items()})), rng, salt=salt)
+        if ctx.too_many():
+            return
     for _ in range(spec["nrand"]):
         check_scene(ctx, R.Scene(R.make_case(rng, 12, 8) if rng.random() < 0.4 else R.make_case(rng, 10, 6)), rng)
         if ctx.too_many():
@@ -164,6 +201,10 @@ def run(ctx, spec):
 def replay(ctx, case):
     if case.get("kind") == "fixture":
         return fixtures(ctx, "C14", lambda scene, rng: check_scene(ctx, scene, rng))
-    base = {k: v for k, v in case.items() if k not in ("orientation", "perturbed", "hi", "pseed")}
+    base = {k: v for k, v in case.items() if k not in ("orientation", "perturbed", "hi", "pseed", "stub_salt")}
+    salt = case.get("stub_salt", "")
+    if case.get("pseed") is not None and case.get("hi") is not None:
+        # the recorded drawing parameters and node sizes first
+        check_scene(ctx, R.Scene(base), random.Random(0), salt=salt, forced=(bool(case.get("perturbed")), case["pseed"], case["hi"]))
     for seed in range(6):
-        check_scene(ctx, R.Scene(base), random.Random(seed))
+        check_scene(ctx, R.Scene(base), random.Random(seed), salt=salt)
